@@ -424,6 +424,16 @@ pub fn shrinks(sc: &Scenario, names: &[&str]) -> Vec<Scenario> {
                         out.push(c);
                     }
                 }
+                FaultSpec::VisEvery => {
+                    // pin the enumeration down to one position
+                    for k in 0..96 {
+                        for e in [false, true] {
+                            let mut c = sc.clone();
+                            c.fault = FaultSpec::Vis(k, e);
+                            out.push(c);
+                        }
+                    }
+                }
                 FaultSpec::Vis(k, e) if *k > 0 => {
                     for nk in [0, k / 2, k - 1] {
                         let mut c = sc.clone();
